@@ -143,6 +143,47 @@ def heavy_first(shards, cases):
     return first, rest
 
 
+# boards whose (height, width) collide under careless keys: decimal concatenation ("1"+"12" == "11"+"2"), h*w, h+w, transposition
+HIST_BOARDS = [(1, 12), (11, 2), (2, 11), (21, 1), (1, 21), (12, 1), (1, 11), (11, 1), (2, 6), (6, 2), (3, 4), (4, 3)]
+
+
+def grid_history_pairs(tier):
+    pairs = [(a, b) for a in HIST_BOARDS for b in HIST_BOARDS if a != b]
+    if tier == "quick":
+        # every board appears as the second of a pair after its transpose, after each board of equal area and after each
+        # board with the same decimal concatenation
+        keep = []
+        for a, b in pairs:
+            same_cat = ("%d%d" % a) == ("%d%d" % b)
+            if same_cat or a[0] * a[1] == b[0] * b[1] or a == (b[1], b[0]) or a[0] + a[1] == b[0] + b[1]:
+                keep.append((a, b))
+        pairs = keep
+    return pairs
+
+
+def warm_grid(shape):
+    """Use every constraint that infers a grid graph once on a board of this shape (throw-away Solvers): whatever the
+    library remembers about that board must not leak into the next one."""
+    from cspuz import BoolGridFrame, Solver, graph
+
+    h, w = shape
+    calls = [
+        lambda s: graph.active_vertices_connected(s, s.bool_array((h, w))),
+        lambda s: graph.active_vertices_connected(s, s.bool_array((h, w)), acyclic=True),
+        lambda s: graph.division_connected(s, s.int_array((h, w), 0, 1), 2),
+        lambda s: graph.division_connected_variable_groups(s, shape=(h, w)),
+        lambda s: graph.active_vertices_not_adjacent(s, s.bool_array((h, w))),
+        lambda s: graph.active_vertices_not_adjacent_and_not_segmenting(s, s.bool_array((h, w))),
+        lambda s: BoolGridFrame(s, h, w).single_loop(),
+        lambda s: graph.active_edges_connected_crossable(s, BoolGridFrame(s, h, w)),
+    ]
+    for c in calls:
+        try:
+            c(Solver())
+        except Exception:
+            pass  # judged by the check that owns that constraint
+
+
 LAYER_GRAPHS = None
 
 
